@@ -143,3 +143,39 @@ Theorem C01_join_nonvacuous :
   = [(0, [([97], 10, 0%nat); ([98], 20, 1%nat); ([99], 21, 1%nat)]); (4, [([97], 11, 0%nat); ([98], 22, 1%nat)])].
 Proof. split; vm_compute; reflexivity. Qed.
 Print Assumptions C01_join_nonvacuous.
+
+(* ---------------------------------------------------------------------------------------------------------------
+   The tee-rejoin clause, composed (Proto/Rejoin.v): source -> (A, B) -> join.  Five publisher / consumer machines and four
+   channels; the two relays' glue (Filter.loop_once + MQ, modelled in MQGlue.v and compared with the real MQ on every run) as
+   hypotheses; the rows pair what A and B published (no rejoined branch skips a frame - the hypothesis of the property).
+   Every set the join hands over descends from ONE source frame: its A part is what A's process() made of that frame, its B
+   part what B's made of the SAME frame, under that frame's id.  Non-vacuity: Rejoin.rejoin_nonvacuous (a concrete run of all
+   five machines). *)
+From OF Require Import Proto.Sender Proto.Sender_Safety Proto.Edge Proto.EdgeNet Proto.EdgeG Proto.Retag Proto.EdgeN Proto.Edge_Inst Proto.Chain Proto.Rejoin.
+Theorem C01_rejoin_descends_from_one_frame :
+  forall (pA pB : list (str * Z) -> option (list (str * Z)))
+         nout0 req0 sits0 sid0 cidA llA ritsA noutA reqA sitsA sidA cidB llB ritsB noutB reqB sitsB sidB cidJ llJ ritsJ rows,
+    let G0 := groups_of sid0 (snd (srun (init_sender nout0 false req0) sits0)) in
+    let FA := Edge.frames (snd (rrun Repaired (init_receiver cidA false llA [c0]) ritsA)) in
+    let FB := Edge.frames (snd (rrun Repaired (init_receiver cidB false llB [c0]) ritsB)) in
+    let GA := groups_of sidA (snd (srun (init_sender noutA false reqA) sitsA)) in
+    let GB := groups_of sidB (snd (srun (init_sender noutB false reqB) sitsB)) in
+    let FJ := Edge.frames (snd (rrun Repaired (init_receiver cidJ false llJ (repeat (cX SubAll) 2)) ritsJ)) in
+    Forall group_wf G0 -> Edge.fed (stream G0) ritsA -> Edge.fed (stream G0) ritsB ->
+    (forall st lazy tm to push t, In (SCall st lazy tm to push t) sitsA ->
+       exists id b fr parts, st = Some (id, b) /\ tm = Some parts /\ In fr FA /\ fst fr = id /\ pA (app_view (snd fr)) = Some parts) ->
+    (forall st lazy tm to push t, In (SCall st lazy tm to push t) sitsB ->
+       exists id b fr parts, st = Some (id, b) /\ tm = Some parts /\ In fr FB /\ fst fr = id /\ pB (app_view (snd fr)) = Some parts) ->
+    (forall row, In row rows -> In (nth 0 row dg) GA /\ In (nth 1 row dg) GB) ->
+    Forall (row_ok group_wf frameA 2) rows -> increasing_from MSG_ID_INITIAL_PREV (map rid rows) ->
+    EdgeN.fed SubAll 2 (map (fun i => xstream vparts (col rows i)) (seq 0 2)) ritsJ ->
+    forall fr, In fr FJ ->
+      exists g0 partsA partsB, In g0 G0 /\ fst fr = gid g0 /\ pA (vparts g0) = Some partsA /\ pB (vparts g0) = Some partsB /\
+        app_view (snd fr) = filter (fun tp => negb (hidden (fst tp))) partsA ++ filter (fun tp => negb (hidden (fst tp))) partsB.
+Proof.
+  intros pA pB nout0 req0 sits0 sid0 cidA llA ritsA noutA reqA sitsA sidA cidB llB ritsB noutB reqB sitsB sidB cidJ llJ ritsJ rows
+         G0 FA FB GA GB FJ H0 HfA HfB HgA HgB Hc Hr Hi HfJ.
+  exact (rejoin_descends_from_one_frame pA pB nout0 req0 sits0 sid0 cidA llA ritsA noutA reqA sitsA sidA cidB llB ritsB noutB reqB sitsB sidB
+           cidJ llJ ritsJ rows H0 HfA HfB HgA HgB Hc Hr Hi HfJ).
+Qed.
+Print Assumptions C01_rejoin_descends_from_one_frame.
